@@ -42,6 +42,8 @@ pub struct Bias {
     pub w_join: u32,
     /// generate the server read-policy configuration (default policy, allow_client_override)
     pub gen_read_config: bool,
+    /// allow power-loss crashes (only synced data survives); off for every cluster-level property
+    pub power_loss: bool,
 }
 
 impl Default for Bias {
@@ -82,6 +84,7 @@ impl Default for Bias {
             learners: 0,
             w_join: 0,
             gen_read_config: false,
+            power_loss: false,
         }
     }
 }
@@ -137,7 +140,11 @@ fn event(b: &Bias) -> BoxedStrategy<Event> {
     add(b.w_partition, (1u8..31, any::<bool>()).prop_map(|(mask, brk)| Event::Partition { mask, brk }).boxed());
     add(b.w_isolate, any::<bool>().prop_map(|brk| Event::IsolateLeader { brk }).boxed());
     add(b.w_heal, Just(Event::Heal).boxed());
-    add(b.w_crash, (any::<u16>(), any::<bool>()).prop_map(|(node, power_loss)| Event::Crash { node, power_loss }).boxed());
+    // Crashes are process crashes (written-but-unsynced data survives): d-engine documents its buffered log as
+    // "process crash safe, power loss unsafe" (buffered_raft_log.rs module docs), so cluster-level properties are
+    // judged under that fault model. Power loss is explored where a property names it (C18, on the log itself).
+    let power = b.power_loss;
+    add(b.w_crash, (any::<u16>(), any::<bool>()).prop_map(move |(node, p)| Event::Crash { node, power_loss: p && power }).boxed());
     add(b.w_stop, any::<u16>().prop_map(|node| Event::Stop { node }).boxed());
     add(b.w_restart, any::<u16>().prop_map(|node| Event::Restart { node }).boxed());
     add(b.w_restart_cluster, Just(Event::RestartCluster).boxed());
